@@ -50,10 +50,25 @@ Definition add_dur (t : tp) (ticks : Z) : tp :=
 Definition sub_dur (t : tp) (ticks : Z) : tp :=
   normalize (mk_tp (sec t - whole_seconds ticks) (ns t - remainder_ns ticks)).
 
-(* friend duration operator-(const time_point& a, const time_point& b):
-     duration((a.seconds_ - b.seconds_) * 10'000'000 + (a.nanoseconds_ - b.nanoseconds_) / 100) *)
-Definition diff (a b : tp) : Z :=
+(* friend duration operator-(const time_point& a, const time_point& b), AS WRITTEN BEFORE THE
+   FIX (repo commit 69a85c3):
+     duration((a.seconds_ - b.seconds_) * 10'000'000 + (a.nanoseconds_ - b.nanoseconds_) / 100)
+   Kept for the refutation diff_not_trunc_refuted. *)
+Definition diff_w (a b : tp) : Z :=
   (sec a - sec b) * ticks_per_sec + Z.quot (ns a - ns b) ns_per_tick.
+
+(* friend duration operator-(const time_point& a, const time_point& b), current code:
+     std::int64_t seconds = a.seconds_ - b.seconds_;
+     long long nanoseconds = a.nanoseconds_ - b.nanoseconds_;
+     if (seconds > 0 && nanoseconds < 0)      { seconds -= 1; nanoseconds += 1'000'000'000; }
+     else if (seconds < 0 && nanoseconds > 0) { seconds += 1; nanoseconds -= 1'000'000'000; }
+     return duration(seconds * 10'000'000 + nanoseconds / 100); *)
+Definition diff (a b : tp) : Z :=
+  let s := sec a - sec b in
+  let n := ns a - ns b in
+  if (0 <? s) && (n <? 0) then (s - 1) * ticks_per_sec + Z.quot (n + ns_per_sec) ns_per_tick
+  else if (s <? 0) && (0 <? n) then (s + 1) * ticks_per_sec + Z.quot (n - ns_per_sec) ns_per_tick
+  else s * ticks_per_sec + Z.quot n ns_per_tick.
 
 (* operator<:  (a.s == b.s) ? (a.ns < b.ns) : (a.s < b.s) *)
 Definition lt (a b : tp) : bool :=
